@@ -38,11 +38,10 @@ var (
 )
 
 func GetGlobalTransactionManager() *GlobalTransactionManager {
-	if globalTransactionManager == nil {
-		onceGlobalTransactionManager.Do(func() {
-			globalTransactionManager = &GlobalTransactionManager{}
-		})
-	}
+	// (no unsynchronised nil check in front of the Once: that read races with the initialisation)
+	onceGlobalTransactionManager.Do(func() {
+		globalTransactionManager = &GlobalTransactionManager{}
+	})
 	return globalTransactionManager
 }
 
